@@ -166,11 +166,16 @@ func setPartitions(n int) [][][]int {
 	return out
 }
 
-func allLayouts() []layoutT {
+// allLayouts: every shard count 1..3 x every partition of the shards over leaf nodes x every extra;
+// maxLeaves bounds the number of responses (quick 3, thorough 4).
+func allLayouts(maxLeaves int) []layoutT {
 	var out []layoutT
 	for n := 1; n <= 3; n++ {
 		for _, blocks := range setPartitions(n) {
 			for _, extra := range []string{"", "emptyleaf", "ghostshard", "ghostleaf"} {
+				if (extra == "emptyleaf" || extra == "ghostleaf") && len(blocks)+1 > maxLeaves {
+					continue
+				}
 				out = append(out, layoutT{NumShards: n, Blocks: blocks, Extra: extra})
 			}
 		}
@@ -433,16 +438,20 @@ func main() {
 			vevid.Fatal("vacuous: the routing code sends hosts a,b,c to one shard of %d - sharding would not be exercised", n)
 		}
 	}
-	maxPts := 4
+	maxPts := 3
 	if f.Thorough() {
 		maxPts = 5
 	}
-	layouts := allLayouts()
+	maxLeaves := 3
+	if f.Thorough() {
+		maxLeaves = 4
+	}
+	layouts := allLayouts(maxLeaves)
 	rep.Bounds["alphabet_points"] = len(alphabet)
 	rep.Bounds["max_points"] = maxPts
 	rep.Bounds["queries"] = len(menu)
 	rep.Bounds["layouts"] = len(layouts)
-	rep.Bounds["max_leaves"] = 4
+	rep.Bounds["max_leaves"] = maxLeaves
 
 	if f.Replay != "" {
 		var cs caseT
